@@ -70,6 +70,13 @@ Definition eff_limit (max_metadata_bytes : N) : N :=
 
 Definition zero_digest : str := zeroDigest.              (* registry/remote/referrers.go *)
 
+(* the first n bytes (io.LimitReader), without going through unary numbers *)
+Fixpoint take_n (l : str) (n : N) : str :=
+  match l with
+  | [] => []
+  | x :: r => if n =? 0 then [] else x :: take_n r (n - 1)
+  end.
+
 Definition nstr (o : option str) : str := match o with Some s => s | None => [] end.
 
 Section Client.
@@ -120,6 +127,9 @@ Section Client.
     | Some n => if verify_digest r refd then Some (mkDesc mt refd n) else None
     end.
 
+  (* what calculateDigestFromResponse reads, hashes and leaves as the response body *)
+  Definition hashed_body (r : response) : str := take_n (r_body r) limit.
+
   (* manifestStore.generateDescriptor; [hd] = the request was a HEAD *)
   Definition gen_desc (r : response) (rf : str) (hd : bool) : option desc :=
     match parse_mt (nstr (r_ctype r)) with
@@ -135,8 +145,10 @@ Section Client.
               let cd : option str :=
                 match srvd with
                 | [] => if hd then (match refd with [] => None | _ => Some refd end)
-                        (* calculateDigestFromResponse: a body over the limit is refused *)
-                        else if limit <? len (r_body r) then None else Some (H (r_body r))
+                        (* calculateDigestFromResponse: a response whose Content-Length is over the
+                           limit is refused up front; otherwise the body is read through
+                           limitReader (at most [limit] bytes, C15) and those bytes are hashed *)
+                        else if limit <? n then None else Some (H (hashed_body r))
                 | _ => Some srvd
                 end in
               match cd with
@@ -310,7 +322,12 @@ Section Client.
                end)
           | Some _ =>
               (s1, [(q, r)],
-               match gen_desc r rf false with Some d => RDescBytes d (r_body r) | None => RErr EOther end)
+               match gen_desc r rf false with
+               | Some d =>
+                   (* without a digest header the body was consumed for hashing and replaced *)
+                   RDescBytes d (match nstr (r_dig r) with [] => hashed_body r | _ => r_body r end)
+               | None => RErr EOther
+               end)
           end
         else (s1, [(q, r)], if r_status r =? 404 then RErr ENotFound else status_err r)
     end.
